@@ -227,4 +227,210 @@ def runSchedule (cl : Bool) (procs : List Nat) (n0 : Nat) (sched : List Nat) : S
   " ".intercalate pcs ++ " | " ++ ",".intercalate (sc.sys.recs.map showRec) ++
     (if tries.isEmpty then "" else " | " ++ " ".intercalate tries)
 
+/-! ### other users of the same locks (round 4)
+
+The flock belongs to an *open file description*; the unlock call is given a descriptor NUMBER.  As long
+as every lock user issues its unlock while its own file is still open, the number names its own
+description and the two are the same thing — that is what the model above assumes.  Two facts are read
+from the source on every run (Gen/Lock.lean) to justify it, and each has its abstract counterpart here:
+
+* `lockClose` — every function that takes one of the locks gives the unlock the locked file's descriptor
+  and closes the file only after the deferred unlock has run.  Otherwise (`Disc.closeFirst`) the unlock
+  runs on a number that the kernel may meanwhile have handed to another thread's file: `unlockNum`
+  releases the flock of whichever description the number names *now* (a "foreign unlock").
+* `appendCallers` — no caller of AppendRecord falls back, on an error, to writing the record by another
+  route.  Otherwise (`Disc.bypass`) a call that got `ErrPttLock` stores its record at slot
+  `recs.length`, read WITHOUT the flock (`bread`), with a write the flock holders do not see (`bstore`). -/
+
+/-- every lock user unlocks its own file's descriptor while that file is still open. -/
+def unlockBeforeCloseOf (users : List (String × String)) : Bool :=
+  !users.isEmpty && users.all (fun f => f.2 == "unlock-before-close")
+
+/-- no caller of AppendRecord writes the record by another route when the call fails. -/
+def noBypassOf (callers : List (String × String)) : Bool :=
+  !callers.isEmpty && callers.all (fun f => f.2 == "propagates" || f.2 == "ignores" || f.2 == "retries")
+
+/-- some caller of AppendRecord has a fallback writer (what the schedule-level model follows). -/
+def sourceBypass : Bool := Gen.Lock.appendCallers.any (fun f => f.2.startsWith "fallback:")
+
+/-- the discipline of the other lock users / callers. -/
+structure Disc where
+  closeFirst : Bool      -- a lock user closes its file before its deferred unlock runs
+  bypass : Bool          -- a caller of AppendRecord falls back to a write outside the whole-file lock
+
+def disciplined : Disc := { closeFirst := false, bypass := false }
+
+/-- state of the fallback write of a call whose AppendRecord returned an error. -/
+inductive BPC where
+  | idle
+  | counted (k : Nat)      -- GetNumRecords answered k (no lock held)
+  | stored (k : Nat)       -- SubstituteRecord at slot k returned nil: the call reports success
+  deriving DecidableEq, Repr, Inhabited
+
+/-- whose open file description a descriptor number names. -/
+inductive Owner where
+  | app (t : Nat)          -- appender thread t's record file
+  | usr (u : Nat)          -- lock user u's own file (an article: another file, another flock, another table key)
+  deriving DecidableEq, Repr
+
+/-- a lock user (ptt.doAddRecommendSmartMerge): open, lock its own file, write, then
+unlock(number) and close — in the order the source has them. -/
+inductive UPC where
+  | idle
+  | opened (n : Nat)       -- file open under number n (locked, written)
+  | unlocked (n : Nat)     -- disciplined order: unlock done, close pending
+  | closed (n : Nat)       -- close-first order: file closed, the deferred unlock of number n pending
+  | done
+  deriving DecidableEq, Repr, Inhabited
+
+structure XSys where
+  sys : Sys
+  byp : Nat → BPC                       -- appender thread ↦ its fallback write
+  names : Nat → Nat → Option Owner      -- process, descriptor number ↦ the open description it names
+  appFd : Nat → Option Nat              -- appender thread ↦ the number of its record file while open
+  upc : Nat → UPC                       -- the other lock users
+
+def setName (x : XSys) (p n : Nat) (o : Option Owner) : Nat → Nat → Option Owner :=
+  fun q m => if q = p ∧ m = n then o else x.names q m
+
+def isDone : PC → Bool
+  | .doneOk _ | .doneErr | .doneFail => true
+  | _ => false
+
+/-- an appender's step where flock(LOCK_UN) is exact: it releases the flock only if the thread's own
+description still holds it (in the disciplined system it always does: `funlockStep_eq`). -/
+def funlockStep (proc : Nat → Nat) (cl : Bool) (s : Sys) (t : Nat) : Option Sys :=
+  match s.pc t with
+  | .written i => if s.holder = some t then step proc cl s t else some { s with pc := setPc s t (.unlocked i) }
+  | .bodyFailed => if s.holder = some t then step proc cl s t else some { s with pc := setPc s t .unlockedErr }
+  | _ => step proc cl s t
+
+/-- flock(n, LOCK_UN) in process p: acts on the description that number n names now (EBADF: nothing). -/
+def unlockNum (x : XSys) (p n : Nat) : XSys :=
+  match x.names p n with
+  | some (.app v) => if x.sys.holder = some v then { x with sys := { x.sys with holder := none } } else x
+  | _ => x
+
+inductive XAct where
+  | st (t : Nat)            -- atomic step of appender t
+  | fl (t : Nat)            -- failing system call of appender t
+  | aopen (t n : Nat)       -- AppendRecord's OpenFile: the kernel hands out a free number n
+  | aclose (t : Nat)        -- its deferred file.Close(), after the call's last step
+  | bread (t : Nat)         -- fallback of a failed call: GetNumRecords, no lock
+  | bstore (t : Nat)        -- … SubstituteRecord at that slot
+  | uopen (u n : Nat)       -- a lock user opens its own file: free number n
+  | uunlock (u : Nat)       -- its deferred GoFunlock(number)
+  | uclose (u : Nat)        -- its file.Close()
+
+def xstep (proc procU : Nat → Nat) (cl : Bool) (d : Disc) (x : XSys) : XAct → Option XSys
+  | .st t =>
+      if (x.appFd t).isSome then (funlockStep proc cl x.sys t).map (fun s' => { x with sys := s' }) else none
+  | .fl t =>
+      if (x.appFd t).isSome then (failStep x.sys t).map (fun s' => { x with sys := s' }) else none
+  | .aopen t n =>
+      if x.sys.pc t = .start ∧ x.appFd t = none ∧ x.names (proc t) n = none then
+        some { x with names := setName x (proc t) n (some (.app t)),
+                      appFd := fun u => if u = t then some n else x.appFd u }
+      else none
+  | .aclose t =>
+      match x.appFd t with
+      | some n =>
+          if isDone (x.sys.pc t) then
+            some { x with names := setName x (proc t) n none, appFd := fun u => if u = t then none else x.appFd u }
+          else none
+      | none => none
+  | .bread t =>
+      if d.bypass = true ∧ x.sys.pc t = .doneErr ∧ x.byp t = .idle then
+        some { x with byp := fun u => if u = t then .counted x.sys.recs.length else x.byp u }
+      else none
+  | .bstore t =>
+      match x.byp t with
+      | .counted k =>
+          some { x with sys := { x.sys with recs := writeRec x.sys.recs k t },
+                        byp := fun u => if u = t then .stored k else x.byp u }
+      | _ => none
+  | .uopen u n =>
+      if x.upc u = .idle ∧ x.names (procU u) n = none then
+        some { x with names := setName x (procU u) n (some (.usr u)),
+                      upc := fun v => if v = u then .opened n else x.upc v }
+      else none
+  | .uunlock u =>
+      match x.upc u with
+      | .opened n =>
+          if d.closeFirst then none
+          else some { unlockNum x (procU u) n with upc := fun v => if v = u then .unlocked n else x.upc v }
+      | .closed n => some { unlockNum x (procU u) n with upc := fun v => if v = u then .done else x.upc v }
+      | _ => none
+  | .uclose u =>
+      match x.upc u with
+      | .opened n =>
+          if d.closeFirst then
+            some { x with names := setName x (procU u) n none, upc := fun v => if v = u then .closed n else x.upc v }
+          else none
+      | .unlocked n =>
+          some { x with names := setName x (procU u) n none, upc := fun v => if v = u then .done else x.upc v }
+      | _ => none
+
+def xinit (n0 : Nat) : XSys :=
+  { sys := init n0, byp := fun _ => .idle, names := fun _ _ => none, appFd := fun _ => none, upc := fun _ => .idle }
+
+/-- reachable in the system with descriptor numbers, other lock users and (if `d.bypass`) fallback writers. -/
+inductive XReachable (proc procU : Nat → Nat) (cl : Bool) (d : Disc) (n0 : Nat) : XSys → Prop where
+  | init : XReachable proc procU cl d n0 (xinit n0)
+  | step {x x' : XSys} (a : XAct) : XReachable proc procU cl d n0 x → xstep proc procU cl d x a = some x' →
+      XReachable proc procU cl d n0 x'
+
+def xexec (proc procU : Nat → Nat) (cl : Bool) (d : Disc) : List XAct → XSys → Option XSys
+  | [], x => some x
+  | a :: as, x => (xstep proc procU cl d x a).bind (xexec proc procU cl d as)
+
+/-! #### header writers (ptt.WriteFile → writeHeaderAuthorBoard → AppendRecord on .post), one process
+
+`hdr n0 hold nw`: thread 0 is a header writer stopped after `hold` releases (1: before lockFD,
+2: holds the flock, 3: has read the length, 4: has written); then threads 1..nw each run a whole
+header-writer call (nobody stops them); thread 0 is released to its return; finally thread nw+1 runs
+a whole call.  A whole call = open, the appender's atomic steps until it returns, close, and — when
+the source has a fallback writer — the fallback of a call that got an error. -/
+
+def xsteps (proc procU : Nat → Nat) (cl : Bool) (d : Disc) (a : XAct) : Nat → XSys → XSys
+  | 0, x => x
+  | k + 1, x =>
+      match xstep proc procU cl d x a with
+      | some x' => xsteps proc procU cl d a k x'
+      | none => x
+
+def xtry (proc procU : Nat → Nat) (cl : Bool) (d : Disc) (x : XSys) (a : XAct) : XSys :=
+  (xstep proc procU cl d x a).getD x
+
+def wholeCall (proc procU : Nat → Nat) (cl : Bool) (d : Disc) (x : XSys) (t : Nat) : XSys :=
+  let x1 := xtry proc procU cl d x (.aopen t t)
+  let x2 := xsteps proc procU cl d (.st t) 6 x1
+  let x3 := xtry proc procU cl d x2 (.aclose t)
+  let x4 := xtry proc procU cl d x3 (.bread t)
+  xtry proc procU cl d x4 (.bstore t)
+
+def showCall (x : XSys) (t : Nat) : String :=
+  match x.sys.pc t, x.byp t with
+  | .doneOk _, _ => "ok"
+  | _, .stored _ => "ok"
+  | .doneErr, _ => "err"
+  | .doneFail, _ => "err"
+  | p, _ => showPC p
+
+def runHdr (cl bypass : Bool) (n0 hold nw : Nat) : String :=
+  let proc : Nat → Nat := fun _ => 0
+  let d : Disc := { closeFirst := false, bypass := bypass }
+  let rel := fun (st : XSys × Sched) (_ : Nat) =>
+    let sc := release proc cl (nw + 2) { st.2 with sys := st.1.sys } 0
+    ({ st.1 with sys := sc.sys }, sc)
+  let x0 := xtry proc proc cl d (xinit n0) (.aopen 0 0)
+  let st0 : XSys × Sched := (x0, { sys := x0.sys, atOpen := fun _ => false, blocked := fun _ => false })
+  let st1 := (List.range hold).foldl rel st0
+  let xw := (List.range nw).foldl (fun x k => wholeCall proc proc cl d x (k + 1)) st1.1
+  let st2 := (List.range (6 - hold)).foldl rel (xw, st1.2)
+  let x3 := xtry proc proc cl d st2.1 (.aclose 0)
+  let x4 := xtry proc proc cl d (xtry proc proc cl d x3 (.bread 0)) (.bstore 0)
+  let x5 := wholeCall proc proc cl d x4 (nw + 1)
+  " ".intercalate ((List.range (nw + 2)).map (showCall x5)) ++ " | " ++ ",".intercalate (x5.sys.recs.map showRec)
+
 end PttVerif.C14
